@@ -147,10 +147,24 @@ func (m *Machine) decimal(x *sym.Term, signed bool) []*sym.Term {
 		out = append(out, c.BV(8, '-'))
 	}
 	digits := make([]*sym.Term, nd)
+	// the digit arithmetic is done in the narrowest width that holds 10^nd
+	// (the value is known to be below 10^nd on this path)
+	w := 64
+	switch {
+	case nd <= 2:
+		w = 8
+	case nd <= 4:
+		w = 16
+	case nd <= 9:
+		w = 32
+	}
+	nm := c.Resize(mag, w, false)
 	div := uint64(1)
 	for i := nd - 1; i >= 0; i-- {
-		d := c.URem(c.UDiv(mag, c.BV(64, div)), c.BV(64, 10))
-		digits[i] = c.Add(c.Extract(d, 7, 0), c.BV(8, '0'))
+		d := c.URem(c.UDiv(nm, c.BV(w, div)), c.BV(w, 10))
+		// '0'+d for d < 10 is 0x3d: written as a concatenation so that comparisons
+		// of the digit with separators fold syntactically
+		digits[i] = c.Concat(c.BV(4, 3), c.Extract(d, 3, 0))
 		div *= 10
 	}
 	return append(out, digits...)
@@ -263,7 +277,9 @@ func (m *Machine) sprintf(format Str, argv Value) (res Str) {
 			out = append(out, m.strBytes(Str{S: fmt.Sprint(a.T)})...)
 			continue
 		}
-		if g, ok := m.goValue(a, verb); ok {
+		if s, ok := m.stringerBytes(a, verb, spec); ok {
+			out = append(out, s...)
+		} else if g, ok := m.goValue(a, verb); ok {
 			out = append(out, m.strBytes(Str{S: m.realFmt(spec, g)})...)
 		} else {
 			out = append(out, m.symFormat(a, verb, spec)...)
